@@ -23,7 +23,11 @@ type fsEdit struct {
 
 func c09BaseTree() map[string]string {
 	return map[string]string{
-		"/src/entry.tsx":                "import {a} from './a';\nimport {b} from './b';\nimport pkg from 'pkg';\nimport {Comp} from './comp';\nimport data from './data.json';\nimport {aliased} from '@alias/thing';\nimport './side';\nconsole.log(a, b, pkg, <Comp x={1}/>, data.k, aliased);\nexport class K { field = 1; }\n",
+		"/src/entry.tsx":                "import {a} from './a';\nimport {b} from './b';\nimport pkg from 'pkg';\nimport {Comp} from './comp';\nimport data from './data.json';\nimport {aliased} from '@alias/thing';\nimport './side';\nimport whole, {list, nested} from './fixed.json';\nimport './opt';\nconsole.log(a, b, pkg, <Comp x={1}/>, data.k, aliased, whole, list, nested);\nexport class K { field = 1; }\n",
+		// a JSON module whose default export and named properties are both used, and which no edit touches (a cache hit on every rebuild)
+		"/src/fixed.json": "{\"list\": [1, 2, 3], \"nested\": {\"n\": 1}, \"other\": \"x\"}\n",
+		// optional dependencies behind directories that do not exist at first (unresolved require inside try is a warning)
+		"/src/opt.js": "try { console.log(require('./sub/x.js')); } catch (e) { console.log('no sub'); }\ntry { console.log(require('@scope/opt')); } catch (e) { console.log('no scoped package'); }\n",
 		"/src/a.js":                     "export const a = 'a1';\n",
 		"/src/b.ts":                     "export const b: string = 'b1';\n",
 		"/src/comp.tsx":                 "export function Comp(p: {x: number}) { return <div>{p.x}</div>; }\n",
@@ -138,6 +142,15 @@ func c09Edits(rng *Rng) []fsEdit {
 		}
 		return writeFileAt(root, "/package.json", "{\"name\": \"proj\", \"type\": \"module\", \"sideEffects\": false}\n")
 	})
+	add("create-dir-module", "create the missing directory src/sub with x.js", func(root string, step int) error {
+		return writeFileAt(root, "/src/sub/x.js", fmt.Sprintf("module.exports = 'sub-x-%d';\n", step))
+	})
+	add("remove-dir-module", "remove src/sub", func(root string, step int) error { return os.RemoveAll(filepath.Join(root, "/src/sub")) })
+	add("create-scoped-package", "create the missing directory node_modules/@scope with package opt", func(root string, step int) error {
+		writeFileAt(root, "/node_modules/@scope/opt/package.json", "{\"name\": \"@scope/opt\", \"main\": \"./index.js\"}\n")
+		return writeFileAt(root, "/node_modules/@scope/opt/index.js", fmt.Sprintf("module.exports = 'scoped-opt-%d';\n", step))
+	})
+	add("remove-scoped-package", "remove node_modules/@scope", func(root string, step int) error { return os.RemoveAll(filepath.Join(root, "/node_modules/@scope")) })
 	add("symlink", "replace lib/thing.ts by a symlink to lib2/thing.ts", func(root string, step int) error {
 		os.Remove(filepath.Join(root, "/src/lib/thing.ts"))
 		return os.Symlink("../lib2/thing.ts", filepath.Join(root, "/src/lib/thing.ts"))
